@@ -39,7 +39,7 @@ theorem shape_defaultE (s : Schema) (hs : WFSchema s = true) (ty : FTy) (hty : t
     simp only [FTy.wfIn, decide_eq_true_eq] at hty
     unfold WFSchema at hs
     simp only [Bool.and_eq_true, List.all_eq_true, List.mem_range] at hs
-    have := hs.2 i hty
+    have := hs.2.1 i hty
     unfold defaultMsg at this
     unfold defaultE at this ⊢
     cases hl : s.length with
